@@ -124,6 +124,11 @@ def build(r, name):
         v.disabled = r.random() < 0.1
         v.split_attrs = r.choice([0, 1, 2])
         vs.append(v)
+    if r.random() < 0.35:
+        # a default variant WITH to_string has a fixed canonical name like any other variant
+        dv = Variant(ident="CatchAll%s" % name, kind=r.choice(["tuple", "named"]), default=True, to_string=r.choice(["dflt", "catch all", "é-default", "d"]))
+        dv.fields = [Field(ty="String")] if dv.kind == "tuple" else [Field(ty="String", name=r.choice(["f", "s", "inner"]))]
+        vs.insert(r.randint(0, len(vs)), dv)
     return EnumSpec(name=name, variants=vs, derives=["Display"], serialize_all=style, prefix=prefix, std_derives=["Debug", "Clone"])
 
 
